@@ -41,6 +41,10 @@ def main(tier):
             "lifetimes": [604800, 604800, 500, 0]}
     res.merge(histrun.run(PROP, b, core.scaled(1500 if quick else 12000), prof, ORACLES, salt="h"))
     res.merge(histrun.run(PROP, b, core.scaled(400 if quick else 3000), dict(prof, qq_fail=0.3), ORACLES, salt="qf"))
+    # notices with dozens of failed recipients (bounce/N and the notice far larger than the copy buffers)
+    big = dict(prof, min_rcpts=40, max_rcpts=120, max_msgs=2, report_burst=30, max_quiescent=2500, conc=[20, 120], spawn=[120],
+               hold_reports=0.3, dup_rcpt=0.0)
+    res.merge(histrun.run(PROP, b, core.scaled(6 if quick else 60), big, ORACLES, salt="big"))
     # one failing read()/open() of the files a notice is built from (bounce/N, mess/N, info/N) per run: the notice must still
     # name every failed recipient once the daemon has retried (I/O faults are outside the stated quantifier; kept small)
     prof_sw = dict(prof, max_msgs=2, p_term_restart=0.0, count="mtro", trace_extra="tr", max_rcpts=4)
